@@ -506,7 +506,19 @@ fn read_subchunk<R: Read + Seek>(
         )),
     })?;
 
-    // Read subchunk data
+    // Read subchunk data (a size beyond the rest of the input is an error, not an allocation)
+    let data_pos = reader.stream_position()?;
+    let end = reader.seek(SeekFrom::End(0))?;
+    reader.seek(SeekFrom::Start(data_pos))?;
+    if u64::from(subchunk_header.size) > end.saturating_sub(data_pos) {
+        return Err(binrw::Error::Custom {
+            pos: subchunk_pos,
+            err: Box::new(format!(
+                "{} subchunk size {} exceeds the input",
+                name, subchunk_header.size
+            )),
+        });
+    }
     let mut data = vec![0u8; subchunk_header.size as usize];
     reader.read_exact(&mut data)?;
 
@@ -576,7 +588,19 @@ fn read_subchunk_with_size<R: Read + Seek>(
         );
     }
 
-    // Read subchunk data using the expected size
+    // Read subchunk data using the expected size (which must fit into the rest of the input)
+    let data_pos = reader.stream_position()?;
+    let end = reader.seek(SeekFrom::End(0))?;
+    reader.seek(SeekFrom::Start(data_pos))?;
+    if u64::from(expected_size) > end.saturating_sub(data_pos) {
+        return Err(binrw::Error::Custom {
+            pos: subchunk_pos,
+            err: Box::new(format!(
+                "{} subchunk size {} exceeds the input",
+                name, expected_size
+            )),
+        });
+    }
     let mut data = vec![0u8; expected_size as usize];
     reader.read_exact(&mut data)?;
 
